@@ -2,7 +2,7 @@ SPECIFICATION TraceSpec
 CONSTANTS
   K = 2
   Debug = TRUE
-  Fix = {}
+  Fix = {"direct_guard"}
 VIEW TraceView
 POSTCONDITION TraceAccepted
 CHECK_DEADLOCK FALSE
